@@ -84,6 +84,20 @@ Theorem C08_frag_restrictions : forall c kk m att,
 Proof. exact frag_restrictions. Qed.
 Print Assumptions C08_frag_restrictions.
 
+(* the resource limits of the context, spelled out: the script length is that of the model's
+   encoding (tied to encode().len() on every output of a run); the other figures are static
+   over-approximations of what any execution path can use *)
+Theorem C08_limits_spelled : forall c kk m, limits_ok c kk m = true ->
+  match c with
+  | Bare => N.of_nat (length (encode (val_keyenv kk) m)) <= 10000 /\ ops_bound kk m <= 201
+  | Legacy => N.of_nat (length (encode (val_keyenv kk) m)) <= 520 /\ ops_bound kk m <= 201 /\ wit_bytes kk m <= 1650
+  | Segwitv0 => N.of_nat (length (encode (val_keyenv kk) m)) <= 3600 /\ ops_bound kk m <= 201
+                /\ wit_items m + 1 <= 100 /\ stack_bound kk m <= 1000
+  | Tap => stack_bound kk m <= 1000
+  end.
+Proof. exact limits_spelled. Qed.
+Print Assumptions C08_limits_spelled.
+
 (* Taproot outputs *)
 Theorem C08_validator_tr : forall kk pol ik inpol dl expected,
   validate_tr kk pol ik inpol dl expected = true ->
